@@ -144,6 +144,8 @@ func c24ExportMuts() []c24Mut {
 		{"max-workers-zero", func(o *ExportOptions) { o.MaxWorkers = 0 }},
 		{"conn-zero", func(o *ExportOptions) { o.MaxConnections, o.IdleTimeout, o.SendBufferSize, o.ReceiveBufferSize = 0, 0, -5, 0 }},
 		{"squash-changed", func(o *ExportOptions) { o.Squash = "all"; o.TransferSize = 1234; o.ReadOnly = true }},
+		// the same mode in another spelling: accepted or rejected, but as a whole
+		{"squash-respelled", func(o *ExportOptions) { o.Squash = "NONE"; o.TransferSize = 4321; o.AttrCacheSize = 77; o.ReadOnly = true }},
 		{"ratelimit-nil-config", func(o *ExportOptions) { o.EnableRateLimiting = true; o.RateLimitConfig = nil }},
 		{"transfer-size-8k", func(o *ExportOptions) { o.TransferSize = 8192 }},
 	}
@@ -237,7 +239,21 @@ func (s *c24State) apply(op c24Op, check bool, hist []c24Op) {
 				if p := c24Guard(func() { err = s.e.nfs.UpdateExportOptions(arg) }); p != nil && check {
 					s.c.violation("C24|update-panics|"+sig, fmt.Sprintf("UpdateExportOptions(%s) panicked: %v", op.Name, p), cs())
 				}
-				if in.Squash != "" && in.Squash != before.Squash {
+				respelled := in.Squash != before.Squash && strings.EqualFold(in.Squash, before.Squash)
+				if respelled && err == nil {
+					// accepted: every field must have been applied (either spelling may be reported)
+					w := in
+					w.Squash = s.e.nfs.GetExportOptions().Squash
+					if !strings.EqualFold(w.Squash, before.Squash) {
+						w.Squash = before.Squash
+					}
+					want = c24Defaults(w)
+					if want.RateLimitConfig == nil {
+						want.RateLimitConfig = before.RateLimitConfig
+					}
+				} else if respelled {
+					want = s.model // rejected: nothing may have changed
+				} else if in.Squash != "" && in.Squash != before.Squash {
 					// must be rejected as a whole
 					if err == nil && check {
 						s.c.violation("C24|squash-change-accepted", "UpdateExportOptions with a different Squash returned nil", cs())
@@ -378,7 +394,7 @@ func init() {
 	vRegister(&vCheck{
 		id: "C24", level: "model_checking", flavour: "vtime",
 		shards: func(string) int { return 15 },
-		rule: "breadth-first search over sequences (depth 2, thorough 3) of 30 runtime updates: UpdateExportOptions with {zero value, only ReadOnly, current, TransferSize -1/0/8192, Timeouts nil / all zero / all negative / DefaultTimeout 0, cache sizes 0, cache timeouts 0, MaxWorkers 0, connection fields 0/negative, Squash changed (+ other fields), rate limiting on with nil config}; UpdateTuningOptions mutators {TransferSize 0/negative, Timeouts nil, DefaultTimeout 0, operation timeouts negative, cache 0, MaxWorkers negative, connection 0, Log nil, all zero}; UpdatePolicyOptions {zero value, current, Squash changed, ReadOnly toggled}; states deduplicated on the reported configuration. After every update GetExportOptions is compared field by field with a model that applies the construction defaults, a rejected update must leave every field unchanged, and LOOKUP, READ (count>0) and WRITE (count>0 unless read-only) must be served without panic.",
+		rule: "breadth-first search over sequences (depth 2, thorough 3) of 30 runtime updates: UpdateExportOptions with {zero value, only ReadOnly, current, TransferSize -1/0/8192, Timeouts nil / all zero / all negative / DefaultTimeout 0, cache sizes 0, cache timeouts 0, MaxWorkers 0, connection fields 0/negative, Squash changed (+ other fields), Squash respelled in another letter case (+ other fields; accepted or rejected, but as a whole), rate limiting on with nil config}; UpdateTuningOptions mutators {TransferSize 0/negative, Timeouts nil, DefaultTimeout 0, operation timeouts negative, cache 0, MaxWorkers negative, connection 0, Log nil, all zero}; UpdatePolicyOptions {zero value, current, Squash changed, ReadOnly toggled}; states deduplicated on the reported configuration. After every update GetExportOptions is compared field by field with a model that applies the construction defaults, a rejected update must leave every field unchanged, and LOOKUP, READ (count>0) and WRITE (count>0 unless read-only) must be served without panic.",
 		assumptions: []string{"the construction defaults are those documented on ExportOptions and re-implemented in the check (c24Defaults)", "Log/TLS/RateLimitConfig are compared for nil-ness only"},
 		run: func(c *vCtx) {
 			ops := c24Ops()
